@@ -116,7 +116,9 @@ class TokenParser(Parser):
         lines = []
         for line in d["values"].splitlines():
             stripped = line.strip()
-            if lines and stripped and (stripped[0] in "=+-*/%&|^<>()" or lines[-1].rstrip()[-1:] in tuple("=+-*/%&|^<>(~")):
+            if not stripped:
+                continue
+            if lines and (stripped[0] in "=+-*/%&|^<>()" or lines[-1].rstrip()[-1:] in tuple("=+-*/%&|^<>(~")):
                 lines[-1] += " " + stripped
             else:
                 lines.append(line)
